@@ -462,6 +462,25 @@ Proof.
 Qed.
 Print Assumptions C15_store_same_call.
 
+(* ... and across walks of the same PDK whose cache persists (Sky130 / GF180: module scope): a position swapped by an
+   earlier walk and one swapped by a later walk that started from a cache extending the earlier one's *)
+Theorem C15_store_same_call_across k f1 s st i1 s1 st1 e1 f2 sa st2 i2 s2 st3 e2 j1 q1 j2 q2 p1 p2 prm c1 c2 :
+  svisit f1 k s st i1 = (s1, st1, e1) -> cache_ext (cache st1) (cache st2) -> svisit f2 k sa st2 i2 = (s2, st3, e2) ->
+  get_target s j1 q1 = Some (SPrim p1 prm) -> get_target s1 j1 q1 = Some (SCall c1) ->
+  get_target sa j2 q2 = Some (SPrim p2 prm) -> get_target s2 j2 q2 = Some (SCall c2) ->
+  group_of k p1 = group_of k p2 -> c1 = c2.
+Proof.
+  intros H1 X H2 A1 B1 A2 B2 G.
+  destruct (svisit_rel' _ _ _ _ _ _ _ _ H1) as (_ & R1 & _). destruct (svisit_rel' _ _ _ _ _ _ _ _ H2) as (X2 & R2 & _).
+  destruct (srel_get_l _ _ _ _ _ _ R1 A1) as [t1 [E1 T1]]. destruct (srel_get_l _ _ _ _ _ _ R2 A2) as [t2 [E2 T2]].
+  rewrite B1 in E1. rewrite B2 in E2. inversion E1; subst. inversion E2; subst.
+  destruct T1 as [Y|(p & pr & c & Y1 & Y2 & (g & Gp & L))]; [discriminate Y|].
+  destruct T2 as [Z|(p' & pr' & c' & Z1 & Z2 & (g' & Gp' & L'))]; [discriminate Z|].
+  inversion Y1; subst. inversion Y2; subst. inversion Z1; subst. inversion Z2; subst.
+  rewrite Gp, Gp' in G. inversion G; subst. apply X in L. apply X2 in L. congruence.
+Qed.
+Print Assumptions C15_store_same_call_across.
+
 (* ---- histories: one or several PDKs, any number of compilations, entered at any module, returning or raising *)
 (* 11.9 after ANY history the store is the initial one with only targets of generic primitives replaced, each by the
         call that the selection of one of the history's PDKs (one that maps the primitive) builds for the request *)
